@@ -131,7 +131,8 @@ namespace AIToolbox::POMDP {
             if constexpr(MDP::IsModelEigen<M>)
                 return model_.getRewardFunction().transpose();
             else
-                return MDP::computeImmediateRewards(model_).transpose();
+                // Materialize: transpose() alone would return a view of a temporary.
+                return Matrix2D(MDP::computeImmediateRewards(model_).transpose());
         }();
         // You can find out why this is divided in the incremental pruning paper =)
         // The idea is that at the end of all the cross sums it's going to add up to the correct value.
